@@ -749,6 +749,13 @@ func TestCheck(t *testing.T) {
 	fixedCreated := mkCreated(r, root, pass{"fixed", fixedPass})
 	fixedLegacy, _ := mkLegacy(pass{"fixed", fixedPass})
 
+	// 0: files written earlier (golden), opened by the workers in the environment the check started in (first, so that a
+	// deadline cap never cuts them)
+	for _, gv := range golden.Vectors {
+		cases = append(cases, goldenCase(gv, "load", true, envAsStarted), goldenCase(gv, "load", false, envAsStarted), goldenCase(gv, "export", true, envAsStarted))
+	}
+	counts["golden_cases"] = len(cases)
+
 	// 1 + 3a: all ordered (save, load) passphrase pairs, both formats, load and export
 	for _, fm := range []struct {
 		origin string
@@ -765,7 +772,7 @@ func TestCheck(t *testing.T) {
 			}
 		}
 	}
-	counts["pair_cases"] = len(cases)
+	counts["pair_cases"] = len(cases) - counts["golden_cases"]
 
 	// 4: export → import → load
 	n0 := len(cases)
@@ -811,13 +818,6 @@ func TestCheck(t *testing.T) {
 		cases = append(cases, corruptions("corrupt", "created", created[0], "empty", []byte{}, []string{"load"}, thorough, map[string]bool{"load": true})...)
 	}
 	counts["corruption_cases"] = len(cases) - n0
-
-	// 5: files written earlier (golden), opened by the workers in the environment the check started in
-	n0 = len(cases)
-	for _, gv := range golden.Vectors {
-		cases = append(cases, goldenCase(gv, "load", true, envAsStarted), goldenCase(gv, "load", false, envAsStarted), goldenCase(gv, "export", true, envAsStarted))
-	}
-	counts["golden_cases"] = len(cases) - n0
 
 	// 6: the saved file opens in another environment — process-global switches, hence serial and before any worker starts
 	envStart := time.Now()
